@@ -3,6 +3,7 @@ package main
 import (
 	"bufio"
 	"encoding/json"
+	"math/rand"
 	"os"
 	"regexp"
 	"strings"
@@ -33,6 +34,25 @@ func addRegexRule(nr *nativeRules, seen map[string]bool, text string) {
 	}
 	nr.texts = append(nr.texts, text)
 	nr.rules = append(nr.rules, r)
+}
+
+// enumerateRegexRules: every expression of 1..maxAtoms atoms, plus `sample` seeded expressions of maxAtoms+1..maxAtoms+2 atoms.
+func enumerateRegexRulesSampled(maxAtoms, sample int, seed int64) *nativeRules {
+	nr := enumerateRegexRules(maxAtoms)
+	seen := map[string]bool{}
+	for _, t := range nr.texts {
+		seen[t] = true
+	}
+	rnd := rand.New(rand.NewSource(seed))
+	for i := 0; i < sample; i++ {
+		n := maxAtoms + 1 + rnd.Intn(2)
+		p := ""
+		for j := 0; j < n; j++ {
+			p += regexAtoms[rnd.Intn(len(regexAtoms))]
+		}
+		addRegexRule(nr, seen, "/"+p+"/")
+	}
+	return nr
 }
 
 func enumerateRegexRules(maxAtoms int) *nativeRules {
@@ -86,12 +106,12 @@ func init() {
 		Pkgs:     []string{"rules"},
 		InitPkgs: []string{"filterutil", "rules"},
 		Prepare: func(rc *RunCtx) error {
-			maxTok, maxAtoms, nb, sample := 2, 2, 60, 100
+			maxTok, maxAtoms, nb, sample, rsample := 2, 2, 60, 100, 60
 			if rc.Tier == "thorough" {
-				maxAtoms, nb, sample = 3, 0, 2000
+				nb, sample, rsample = 0, 2000, 1500
 			}
 			mask := enumerateMaskRules(maxTok, sample, rc.Seed)
-			rx := enumerateRegexRules(maxAtoms)
+			rx := enumerateRegexRulesSampled(maxAtoms, rsample, rc.Seed)
 			bd := bundledRegexRules(nb)
 			all := &nativeRules{}
 			all.texts = append(append(append(all.texts, mask.texts...), rx.texts...), bd.texts...)
@@ -133,8 +153,8 @@ func init() {
 		},
 		MustReach: []string{"c03b.rule", "c05.rule", "c05.accepts"},
 		Bounds: map[string]string{
-			"quick":    "mask patterns of 1..2 tokens (as C03) + 100 seeded longer ones; regular expressions of 1..2 atoms over 25 atoms (literals, \\d \\w \\s \\b \\. \\/ \\xHH, classes, groups with alternation, | * + {m,n} ? ^ $ .); the first 60 regular-expression rules of the bundled lists; for each rule ALL URLs of 0..12 printable-ASCII bytes and ALL hostnames of 1..8 bytes",
-			"thorough": "mask 1..2 tokens plus 2000 seeded longer ones, regular expressions 1..3 atoms, every regular-expression rule of the bundled lists; URLs 0..20 bytes, hostnames 1..12 bytes",
+			"quick":    "mask patterns of 1..2 tokens (as C03) + 100 seeded longer ones; regular expressions of 1..2 atoms over 25 atoms plus 60 seeded ones of 3..4 atoms (literals, \\d \\w \\s \\b \\. \\/ \\xHH, classes, groups with alternation, | * + {m,n} ? ^ $ .); the first 60 regular-expression rules of the bundled lists; for each rule ALL URLs of 0..12 printable-ASCII bytes and ALL hostnames of 1..8 bytes",
+			"thorough": "mask 1..2 tokens plus 2000 seeded longer ones, regular expressions 1..2 atoms plus 1500 seeded ones of 3..4 atoms, every regular-expression rule of the bundled lists; URLs 0..20 bytes, hostnames 1..12 bytes",
 		},
 		Outside:     []string{"URLs longer than the bound (a rule whose shortest match is longer is vacuously covered)", "non-ASCII bytes", "look-arounds (rejected by Go's regexp: the rule is invalid and never matches)"},
 		Assumptions: []string{"regexp encoding == (*Regexp).MatchString on ASCII (validated on concrete strings each run)"},
